@@ -43,6 +43,11 @@ func rootsOf(t *flow.Term, out map[string]string) {
 	case flow.OpCopyOf, flow.OpMake, flow.OpNew, flow.OpArray, flow.OpElemOp, flow.OpStruct, flow.OpConst, flow.OpClosure, flow.OpFunc, flow.OpLen, flow.OpBin, flow.OpUn:
 		out[rootFresh+":"+t.Op] = rootFresh
 	case flow.OpConcat:
+		if _, made := t.Val.(*ssa.MakeSlice); made {
+			// a buffer made for the purpose and filled by copies
+			out[rootFresh+":make"] = rootFresh
+			return
+		}
 		// append may return its first operand's memory
 		if len(t.Args) > 0 {
 			rootsOf(t.Args[0], out)
